@@ -59,8 +59,28 @@ def _run_one(args):
     except Exception:
         res = unit.UnitResult(f"{key[0]}:{key[1]}")
         res.error = traceback.format_exc()
+    canaries = {"checked": 0, "vacuous": 0}
+    try:
+        import random as _r
+        import z3 as _z3
+
+        rnd = _r.Random(seed)
+        cand = [vc for vc in res.vcs if vc.kind != "cover" and vc.status == "discharged" and vc.solver not in (None, "simplifier")]
+        for vc in rnd.sample(cand, min(3, len(cand))):
+            s = _z3.Solver()
+            s.set("timeout", 2000)
+            for a_ in vc.pc:
+                s.add(a_)
+            s.add(vc.goal)
+            r_ = s.check()
+            canaries["checked"] += 1
+            if r_ == _z3.unsat:
+                canaries["vacuous"] += 1
+    except Exception:
+        pass
     out = {
         "unit": res.name,
+        "canaries": canaries,
         "key": list(key),
         "paths": res.paths,
         "path_outcomes": res.path_outcomes,
